@@ -35,6 +35,7 @@ ASSUMPTIONS = [
     'numeric ITP parameters are compared with relative tolerance 1e-6 (elastic lengths +-1.1e-5 nm); CG coordinates with 0.0015 A',
     'the loaders of force fields and mappings are memoised per server process (loaded once under that process hash seed)',
     'polarizable force fields (random charge-dummy placement) are not generated',
+    'a presentation on which the pipeline does not answer within 60 times the duration of the other run (and at least 300 s) counts as "no topology for that presentation"; this is the only use of time in the oracle',
 ]
 
 DATA = os.path.join(REPO, 'vermouth', 'tests', 'data')
@@ -243,15 +244,33 @@ def _shutdown():
 atexit.register(_shutdown)
 
 
-def pipeline(hashseed, pdb_text, args):
+TIMEOUT_FLOOR = 300.0     # seconds; a pipeline run on these fragments takes 0.3-3 s on an idle core
+
+
+def pipeline(hashseed, pdb_text, args, timeout=None):
+    """Returns the server's answer with 'elapsed', or {'timeout': True, 'elapsed': ...} when no answer came in time (the
+    server is then killed; a new one is started on demand)."""
+    import select
+    import time
     srv = server(hashseed)
     srv.stdin.write(json.dumps({'pdb': pdb_text, 'args': args}) + '\n')
     srv.stdin.flush()
+    t0 = time.time()
+    ready, _, _ = select.select([srv.stdout], [], [], timeout if timeout is not None else 7200.0)
+    if not ready:
+        try:
+            srv.kill()
+        except Exception:  # pylint: disable=broad-except
+            pass
+        _SERVERS.pop(hashseed, None)
+        return {'timeout': True, 'elapsed': time.time() - t0}
     line = srv.stdout.readline()
     if not line:
         _SERVERS.pop(hashseed, None)
         raise HarnessError('pipeline server (hash seed %s) died' % hashseed)
-    return json.loads(line)
+    res = json.loads(line)
+    res['elapsed'] = time.time() - t0
+    return res
 
 
 # ---------------------------------------------------------------------------
@@ -393,8 +412,19 @@ def run(case):
     args = cli_args(opt)
     base_text, _, _ = render(residues, None)
     var_text, moved, renamed = render(residues, transform)
-    res_a = pipeline(0, base_text, args)
-    res_b = pipeline(transform['hashseed'], var_text, args)
+    res_a = pipeline(0, base_text, args, timeout=3600.0)
+    if res_a.get('timeout'):
+        return Outcome(['inconclusive:base-run-exceeded-3600s'], False)
+    # the second presentation gets 60 times the time the first one took (at least TIMEOUT_FLOOR seconds): a presentation on
+    # which the pipeline does not come back is a presentation without topology
+    limit = max(TIMEOUT_FLOOR, 60.0 * res_a['elapsed'])
+    res_b = pipeline(transform['hashseed'], var_text, args, timeout=limit)
+    if res_b.get('timeout'):
+        # keep the shrinking that follows affordable: later attempts in this process wait 45 s at least, not 300
+        globals()['TIMEOUT_FLOOR'] = 45.0
+        raise Violation('no-result-in-one-presentation',
+                        'the pipeline answered in %.1f s for the input as is, but did not finish within %.0f s (60x, at least %d s) '
+                        'for the other presentation (transform %r)' % (res_a['elapsed'], limit, TIMEOUT_FLOOR, _short(transform)))
     for res, label in ((res_a, 'base'), (res_b, 'transformed')):
         if not res.get('ok'):
             # the pipeline itself crashed: same behaviour required in both presentations
@@ -449,6 +479,30 @@ def run(case):
         classes.append('has-interactions')
     nontrivial = bool(moved or renamed) and bool(names & SYMMETRIC or has_ss) and bool(out_a['coords'])
     return Outcome(classes, nontrivial)
+
+
+def _match_nt_surplus_hydrogen(spec, part_name, case, violation):
+    """Known finding F33: with -nt (neutral termini) an N-terminus that carries three equivalent hydrogens in the input keeps
+    two of them; which one is dropped follows the order / names of the atoms in the file."""
+    if not case['options'].get('nt'):
+        return False
+    if not (case['transform']['permute'] or case['transform']['rename_h']):
+        return False
+    if not (violation.bucket.startswith('interactions-differ') or violation.bucket == 'coords-not-comoving'):
+        return False
+    preload()
+    _, residues = fragment(case)
+    prev_chain = object()
+    for key, lines in residues:
+        if key[0] != prev_chain:
+            names = set(line[12:16].strip() for line in lines)
+            if {'H1', 'H2', 'H3'} <= names or {'HT1', 'HT2', 'HT3'} <= names or {'1H', '2H', '3H'} <= names:
+                return True
+        prev_chain = key[0]
+    return False
+
+
+MATCHERS = {'nt_surplus_terminal_hydrogen': _match_nt_surplus_hydrogen}
 
 
 def strategy(tier):
